@@ -1,5 +1,14 @@
-"""C08 — ensemble sifts average genuinely independent noise realisations."""
+"""C08 — ensemble sifts average genuinely independent noise realisations.
+
+What is observed (from outside only): every signal handed to the PUBLIC emd.sift.sift during one ensemble_sift /
+complete_ensemble_sift call (wrapper installed on the module attribute before the pool forks, per-pid trace files),
+whatever process, private helper, order or grouping of jobs produced the call.  With X the (1-d) input,
+d_j = S_j - X is the noise actually added to the j-th sifted signal.  The property's own words are evaluated on the
+multiset of these d_j and on the returned array; nothing depends on which private function ran where, nor on which
+numpy.random entry point produced the noise (attribution of the noise to RNG draws is recorded, a failure to attribute
+is skipped and counted, never a violation)."""
 import functools
+import io
 import os
 import pickle
 import time
@@ -22,55 +31,73 @@ REQUIRED = ['C08.pool_map_schedule_indep', 'C08.ensemble_mean', 'C08.flip_member
             'C08.ensemble_zero_noise_eq_getNextImf_sift', 'C08.ensemble_zero_noise_complete',
             'C08.ceemd_agrees_with_sift_model', 'C08.ceemd_composed_cols_le_cap']
 TRUSTED = [
-    'oracle: the classic sift S = the real public emd.sift.sift, tabulated on the member inputs of the same run (lookup by argument within 1e-9)',
-    'oracle: the random generator is an abstract stream; the arrays it hands out are taken from the traced numpy.random.randn / random_sample calls',
+    'oracle: the classic sift S = the real public emd.sift.sift, tabulated on the signals that were actually sifted in the same run '
+    '(lookup by argument within 1e-9)',
+    'oracle: the random generator is an abstract stream; the model is fed the noise arrays observed at the sifted signals '
+    '(d = S - X), members ordered by the draw they are attributed to (numpy.random.randn / standard_normal / normal / '
+    'random_sample / random / rand / ranf / sample / uniform are wrapped) or, when no draw can be attributed, by time',
     'oracle: np.std (noise scale = X.std() * ensemble_noise is computed by the harness with the documented expression)',
     'multiprocessing.Pool with the fork start method modelled as: every worker starts from a copy of the parent state; every job is run '
     'exactly once by some worker; results are collected by job index',
-    'observation from outside only: numpy.random.randn / random_sample and the public emd.sift.sift are wrapped before the pool forks '
-    '(workers inherit the wrappers); pid, monotonic time, input array of every call go to per-pid files in a mkdtemp directory removed afterwards',
+    'observation from outside only: the public emd.sift.sift and the module-level numpy.random functions are wrapped before the pool '
+    'forks (workers inherit the wrappers); pid, monotonic time, array of every call go to per-pid files in a mkdtemp directory '
+    'removed afterwards. Nothing depends on private helpers, on the process a sift ran in, or on the order / grouping of pool jobs',
+    'complete_ensemble_sift: pure-noise sifts are told from member sifts by content (an all-zero input, or an input P whose '
+    'P - firstIMF(P) is itself sifted later or is a column of the returned noise); member sifts are grouped into stages by time '
+    '(stage k+1 inputs depend on the results of all stage k sifts, so the order of stages is causal)',
 ]
 ASSUMPTIONS = [
     'PARTIAL: the real OS scheduling of pool workers is sampled (nprocesses 1..8, randomised worker delays), not enumerated; '
     'the theorems cover every schedule (execution order x job-to-worker assignment) of the model',
-    'successive draws of one generator are distinct arrays (hypothesis `Function.Injective (nthDraw draw g)`): validated on every traced run',
+    'successive draws of one generator are distinct arrays (hypothesis `Function.Injective (nthDraw draw g)`): checked on every traced run, '
+    'a repeat would show as the tag ASSUMPTION-BROKEN:generator-repeats-a-draw in the distribution (a statement about numpy, not about emd)',
     'Pool.starmap returns results in argument order (validated by C07 stream pool_order)',
     'members with different column counts are averaged with absent columns counting as zero and the result has as many columns as the widest '
     'member (behaviour of the DESIGN 9-D3 repair owned by C03); on a tree without that repair such cases raise IndexError and are counted '
     'under the tag d3-ragged-pinned, not compared',
     'complete_ensemble_sift stop logic (number of stages) is taken from the output; C03 owns it',
+    'skip-and-count (never a violation): the public sift is not called at all (tag untraceable); the member noise cannot be attributed to a '
+    'traced numpy.random draw; the stage structure of a complete_ensemble_sift run is not recognised; its member noise is not among the '
+    'noise columns that are sifted themselves',
 ]
 RULE = ('grid: nensembles 1..8 x nprocesses 1..8 x noise_mode {single, flip} x ensemble_noise {0, 0.05, 2.0} x cap {None, 2, 3, 4}; quick samples '
         'the grid, thorough enumerates nensembles x nprocesses x mode x level completely for ensemble_sift and samples complete_ensemble_sift; signals from the tones / chirp / noise / '
         'walk families, n in 48..128; numpy seed per case; random worker delays in 60% of the cases. Non-trivial: nensembles >= 2, '
-        'nprocesses >= 2 and non-zero noise.')
+        'nprocesses >= 2 and non-zero noise. Instance check on the multiset of sifted signals S_j (d_j = S_j - X): single mode = exactly '
+        'nensembles signals with pairwise distinct d_j; flip mode = 2*nensembles signals that pair up as (nu, -nu) with pairwise distinct nu; '
+        'result = zero-padded per-IMF mean of the public sift of those signals; zero noise = classic sift with the same cap.')
 
 MODEL_DRAW = 'parent'        # where the modelled code draws the member noise ('fork' = pinned code, inside the worker)
 LEVELS = [0.0, 0.05, 2.0]
 IMPL_TIMEOUT = 20          # seconds per traced call (normal calls take < 0.3 s)
+RNG_FUNCS = ('randn', 'standard_normal', 'normal', 'random_sample', 'random', 'rand', 'ranf', 'sample', 'uniform')
+SKIP_UNTRACEABLE = 'skip:public-sift-not-traced'
+SKIP_UNATTRIBUTED = 'skip:member-noise-not-attributed-to-a-traced-numpy.random-draw'
 
 
 # ----------------------------------------------------------------------------- tracing
 
 def _traced_call(case, fn):
-    """Run fn() with numpy.random.randn / random_sample and the public emd.sift.sift wrapped. Returns
+    """Run fn() with the public emd.sift.sift and the module-level numpy.random functions wrapped. Returns
     (result or None, error kind or None, msg, events) — events sorted by monotonic time."""
     import emd
-    o_randn, o_rs, o_sift = np.random.randn, np.random.random_sample, emd.sift.sift
+    o_sift = emd.sift.sift
+    o_rng = {name: getattr(np.random, name) for name in RNG_FUNCS if hasattr(np.random, name)}
     parent = os.getpid()
     with _msk.TraceDir() as td:
         def log(kind, arr, extra):
             td.log(pickle.dumps((time.monotonic_ns(), os.getpid(), kind, np.array(arr, dtype=float), extra)))
 
-        def randn(*shape):
-            out = o_randn(*shape)
-            log('randn', out, None)
-            return out
-
-        def random_sample(size=None):
-            out = o_rs(size)
-            log('random_sample', out, None)
-            return out
+        def rng_wrapper(name, orig):
+            @functools.wraps(orig)
+            def wrapped(*a, **k):
+                out = orig(*a, **k)
+                try:
+                    log('rng', out, {'fn': name})
+                except Exception:   # noqa  (not an array of numbers: nothing to attribute)
+                    pass
+                return out
+            return wrapped
 
         @functools.wraps(o_sift)
         def sift(*a, **k):
@@ -78,7 +105,9 @@ def _traced_call(case, fn):
             if case.get('delay'):
                 _msk.jitter()
             return o_sift(*a, **k)
-        np.random.randn, np.random.random_sample, emd.sift.sift = randn, random_sample, sift
+        for name, orig in o_rng.items():
+            setattr(np.random, name, rng_wrapper(name, orig))
+        emd.sift.sift = sift
         res = err = None
         msg = ''
         try:
@@ -89,10 +118,11 @@ def _traced_call(case, fn):
             from common.framework import err_kind
             err, msg = err_kind(e), repr(e)[-300:]
         finally:
-            np.random.randn, np.random.random_sample, emd.sift.sift = o_randn, o_rs, o_sift
+            emd.sift.sift = o_sift
+            for name, orig in o_rng.items():
+                setattr(np.random, name, orig)
         events = []
         for pid, data in td.files().items():
-            import io
             f = io.BytesIO(data)
             while True:
                 try:
@@ -125,14 +155,84 @@ def _zero_padded_mean(n, members, K):
     return out
 
 
-def _flip_mean(n, a, b):
-    K = max(len(a), len(b))
-    return [((a[j] if j < len(a) else np.zeros(n)) + (b[j] if j < len(b) else np.zeros(n))) / 2 for j in range(K)]
-
-
 def _partition(keys):
     first = {}
     return [first.setdefault(k, len(first)) for k in keys]
+
+
+# ----------------------------------------------------------------------------- the observed run
+
+def _sifted(out, n):
+    """(signals of length n handed to the public sift, in time order; number of sift calls on anything else)"""
+    sig, other = [], 0
+    for t, e in enumerate(out['events']):
+        if e['kind'] != 'sift':
+            continue
+        if len(e['v']) == n and n > 0 and np.all(np.isfinite(e['v'])):
+            sig.append({'v': np.array(e['v'], dtype=float), 'w': e['w'], 't': t})
+        else:
+            other += 1
+    return sig, other
+
+
+def _rng_units(out, n):
+    """every length-n array that a traced numpy.random call handed out, as a contiguous chunk or as a column of a
+    block whose leading dimension is n — in draw order"""
+    units = []
+    for e in out['events']:
+        if e['kind'] != 'rng' or n == 0 or len(e['v']) < n or len(e['v']) % n:
+            continue
+        a = np.array(e['v'], dtype=float)
+        cands = list(a.reshape(-1, n))
+        if len(a) > n:
+            cands += list(a.reshape(n, -1).T)
+        seen = set()
+        for u in cands:
+            k = u.tobytes()
+            if k not in seen and np.all(np.isfinite(u)):
+                seen.add(k)
+                units.append({'u': np.ascontiguousarray(u), 'w': e['w'], 'fn': (e.get('extra') or {}).get('fn')})
+    return units
+
+
+def _mag(*arrs):
+    return max([_msk.max_abs(a) for a in arrs] + [0.0])
+
+
+def _pair_up(ds, tol):
+    """match arrays into pairs (a, b) with a + b = 0 within tol. Returns (pairs of indices, unmatched indices)."""
+    free = list(range(len(ds)))
+    pairs, unmatched = [], []
+    while free:
+        i = free.pop(0)
+        best, bdev = None, None
+        for k in free:
+            dev = float(np.max(np.abs(ds[i] + ds[k]))) if len(ds[i]) else 0.0
+            if dev <= tol and (best is None or dev < bdev):
+                best, bdev = k, dev
+        if best is None:
+            unmatched.append(i)
+        else:
+            free.remove(best)
+            pairs.append((i, best))
+    return pairs, unmatched
+
+
+def _same_noise_classes(nus, tol, up_to_sign, ignore=None):
+    """class index per array: two arrays are in one class when they are equal within tol (flip mode: or sign-flipped,
+    the pair {x+nu, x-nu} being the same for nu and -nu). Arrays flagged in `ignore` get a class of their own."""
+    cls = []
+    for i, a in enumerate(nus):
+        c = None
+        if not (ignore and ignore[i]):
+            for k in range(i):
+                if ignore and ignore[k]:
+                    continue
+                if float(np.max(np.abs(a - nus[k]))) <= tol or (up_to_sign and float(np.max(np.abs(a + nus[k]))) <= tol):
+                    c = cls[k]
+                    break
+        cls.append(c if c is not None else (max(cls) + 1 if cls else 0))
+    return cls
 
 
 class _Base(Stream):
@@ -159,6 +259,8 @@ class _Base(Stream):
             t.append('error=' + out['error'])
         ws = set(e['w'] for e in out['events'] if e['kind'] == 'sift')
         t.append('workers-used=%d' % len(ws))
+        fns = sorted(set((e.get('extra') or {}).get('fn') or '?' for e in out['events'] if e['kind'] == 'rng'))
+        t.append('rng=' + ('+'.join(fns) if fns else 'none-traced'))
         return t
 
     def nontrivial(self, case, out):
@@ -202,6 +304,8 @@ class Ensemble(_Base):
              'level': 0.0, 'cap': 6, 'seed': 4, 'opts': 0, 'delay': False},
             {'sig': {'fam': 'walk', 'n': 48, 'seed': 5, 'scale': 1.0}, 'N': 4, 'nproc': 3, 'mode': 'flip',
              'level': 0.05, 'cap': 6, 'seed': 4, 'opts': 0, 'delay': False},
+            # one pool chunk holds several jobs (nensembles > 4 * nprocesses): jobs of a chunk share one unpickled X
+            dict(base, N=6, nproc=1, mode='flip'), dict(base, N=7, nproc=1, mode='single', level=2.0),
         ]
 
     def generate(self, rng, tier):
@@ -239,52 +343,59 @@ class Ensemble(_Base):
     def _analyse(self, case, out):
         def run():
             x = _msk.make_signal(case['sig'])
-            n = len(x)
+            n, N = len(x), case['N']
             scale = float(x.std() * case['level'])
             opts = _opts(case)
-            sifts = [e for e in out['events'] if e['kind'] == 'sift']
-            draws = [e for e in out['events'] if e['kind'] == 'randn']
-            # members = sift calls grouped per worker in time order (flip: consecutive pairs)
-            per = 2 if case['mode'] == 'flip' else 1
-            byw = {}
-            for idx, e in enumerate(sifts):
-                byw.setdefault(e['w'], []).append((idx, e))
-            members = []
-            for w, lst in byw.items():
-                for i in range(0, len(lst) - per + 1, per):
-                    members.append({'w': w, 't': lst[i][0], 'plus': np.array(lst[i][1]['v']),
-                                    'minus': np.array(lst[i + 1][1]['v']) if per == 2 else None})
-            members.sort(key=lambda m: m['t'])
-            # unit noise columns handed out by the generator, in call order per process
-            units = []
-            for e in draws:
-                a = np.array(e['v']).reshape(e['shape'])
-                a = a.reshape(n, -1) if a.size % n == 0 and a.size else a.reshape(-1, 1)
-                for j in range(a.shape[1]):
-                    units.append({'w': e['w'], 'u': a[:, j].copy()})
-            for i, m in enumerate(members):
-                m['unit'] = None
-                if scale == 0:          # nothing added: any assignment reproduces the inputs; take draw order
-                    m['unit'] = units[i] if i < len(units) and len(units[i]['u']) == n else None
-                    continue
-                for u in units:
-                    if len(u['u']) == n and np.array_equal(x + u['u'] * scale, m['plus']):
-                        m['unit'] = u
-                        break
-            # member decompositions recomputed with the public sift on the traced inputs
-            for m in members:
-                a = _classic(m['plus'], case['cap'], opts)
-                m['a'] = a
-                if per == 2:
-                    b = _classic(m['minus'], case['cap'], opts)
-                    m['b'] = b
-                    m['dec'] = _flip_mean(n, a, b)
+            flip = case['mode'] == 'flip'
+            per = 2 if flip else 1
+            sig, other = _sifted(out, n)
+            S = [e['v'] for e in sig]
+            d = [s - x for s in S]
+            tol = 1e-12 * max(_mag(x) + _mag(*d), 1e-300)
+            an = {'x': x, 'scale': scale, 'tol': tol, 'sig': sig, 'd': d, 'other': other, 'expected': N * per,
+                  'traceable': len(S) > 0, 'count_ok': len(S) == N * per, 'members': None, 'unmatched': [],
+                  'decs': None, 'widths': [], 'attributed': False, 'units': _rng_units(out, n)}
+            # the public sift of every signal that was sifted (the property's member decompositions)
+            if S and (an['count_ok'] or scale == 0):
+                an['decs'] = [_classic(s, case['cap'], opts) for s in S]
+                an['widths'] = [len(c) for c in an['decs']]
+            # members: single = every sifted signal; flip = pairs (x + nu, x - nu)
+            if an['count_ok']:
+                if flip:
+                    pairs, unmatched = _pair_up(d, tol)
+                    an['unmatched'] = unmatched
+                    if not unmatched:
+                        an['members'] = [{'plus': i, 'minus': k} for i, k in pairs]
                 else:
-                    m['dec'] = a
-            widths = [len(m['dec']) for m in members]
-            return {'x': x, 'scale': scale, 'members': members, 'units': units, 'widths': widths,
-                    'sub_ragged': per == 2 and any(len(m['a']) != len(m['b']) for m in members),
-                    'nsift': len(sifts)}
+                    an['members'] = [{'plus': i, 'minus': None} for i in range(len(S))]
+            ms = an['members']
+            if ms is not None:
+                for m in ms:
+                    m['nu'] = d[m['plus']]
+                    m['t'] = min(sig[m['plus']]['t'], sig[m['minus']]['t']) if flip else sig[m['plus']]['t']
+                    m['w'] = sig[m['plus']]['w']
+                    m['unit'] = None
+                # attribution of the member noise to traced generator draws (model: noise = scale * draw)
+                if scale > 0:
+                    for m in ms:
+                        for ui, u in enumerate(an['units']):
+                            if float(np.max(np.abs((x + u['u'] * scale) - S[m['plus']]))) <= tol:
+                                m['unit'] = ui
+                            elif flip and float(np.max(np.abs((x + u['u'] * scale) - S[m['minus']]))) <= tol:
+                                m['unit'] = ui         # the run with + (draw * scale) is the other one of the pair
+                                m['plus'], m['minus'] = m['minus'], m['plus']
+                                m['nu'] = d[m['plus']]
+                            if m['unit'] is not None:
+                                break
+                    an['attributed'] = all(m['unit'] is not None for m in ms)
+                else:
+                    an['attributed'] = True      # nothing added: nothing to attribute
+                if scale > 0 and an['attributed']:
+                    ms.sort(key=lambda m: (m['unit'], m['t']))
+                else:
+                    ms.sort(key=lambda m: m['t'])
+                an['classes'] = _same_noise_classes([m['nu'] for m in ms], tol, flip)
+            return an
         return self._memo(case, run)
 
     def _ragged(self, case, an):
@@ -294,9 +405,9 @@ class Ensemble(_Base):
     def _pinned_d3(self, case, out, an):
         """members of different widths (or narrower than the cap) on a tree that still has the un-repaired
         averaging loop of DESIGN 9-D3 (owned by C03): IndexError, or columns cut to the width of member 0"""
-        ragged, K = self._ragged(case, an)
-        if len(an['members']) != case['N']:
+        if an['decs'] is None:
             return False
+        ragged, K = self._ragged(case, an)
         narrow = case['cap'] is not None and K < case['cap']
         if not (ragged or narrow):
             return False
@@ -310,47 +421,72 @@ class Ensemble(_Base):
         if isinstance(out, ImplError):
             return []
         an = self._analyse(case, out)
-        ms = an['members']
-        if len(ms) != case['N'] or any(m['unit'] is None for m in ms):
-            return []
-        x, scale = an['x'], an['scale']
-        order = list(range(len(ms)))
-        wmap = {}
-        workers = [wmap.setdefault(m['w'], len(wmap)) for m in ms]
-        ops = [proto.op('POOLNOISE', {'n': len(ms), 'p': max(case['nproc'], 1), 'model': MODEL_DRAW}, [order, workers])]
-        vecs = [_msk.vlist(x), order, workers] + [_msk.vlist(m['unit']['u']) for m in ms]
+        x, scale, n, N = an['x'], an['scale'], len(an['x']), case['N']
+        flip = case['mode'] == 'flip'
+        tol = _msk.TOL * max(1.0, _msk.max_abs(x) + 6 * scale)
+        if scale == 0:
+            # zero noise: the model's members all sift x itself; the oracle table holds the classic sift of x
+            # (the harness's own call of the public sift) and whatever was traced
+            if N < 1:
+                return []
+            order, workers = list(range(N)), [0] * N
+            noises = [[0.0] * n for _ in range(N)]
+            entries = [(x, _classic(x, case['cap'], _opts(case)))]
+            if an['decs'] is not None:
+                entries += [(e['v'], c) for e, c in zip(an['sig'], an['decs'])][:2 * N]
+        else:
+            ms = an['members']
+            if ms is None or an['decs'] is None:
+                return []
+            rank = sorted(range(len(ms)), key=lambda i: ms[i]['t'])
+            order = rank
+            wmap = {}
+            workers = [wmap.setdefault(m['w'], len(wmap)) for m in ms]
+            noises = []
+            for m in ms:
+                u = an['units'][m['unit']]['u'] if an['attributed'] else m['nu'] / scale
+                noises.append(_msk.vlist(u))
+            entries = []
+            for m in ms:
+                for i in ((m['plus'], m['minus']) if flip else (m['plus'],)):
+                    entries.append((an['sig'][i]['v'], an['decs'][i]))
+        p = max(case['nproc'], 1, max(workers) + 1)
+        ops = [proto.op('POOLNOISE', {'n': len(order), 'p': p, 'model': MODEL_DRAW}, [order, workers])]
+        vecs = [_msk.vlist(x), order, workers] + noises
         widths, tbl = [], []
-        for m in ms:
-            for arg, cols in ((m['plus'], m['a']),) + (((m['minus'], m['b']),) if m['minus'] is not None else ()):
-                widths.append(len(cols))
-                tbl.append(_msk.vlist(arg))
-                tbl += [_msk.vlist(c) for c in cols]
+        for arg, cols in entries:
+            widths.append(len(cols))
+            tbl.append(_msk.vlist(arg))
+            tbl += [_msk.vlist(c) for c in cols]
         vecs += [widths] + tbl
-        ops.append(proto.op('ENS', {'n': len(ms), 'flip': 1 if case['mode'] == 'flip' else 0, 'scale': scale,
-                                    'tol': _msk.TOL * max(1.0, _msk.max_abs(x) + 6 * scale), 'p': max(case['nproc'], 1)}, vecs))
+        ops.append(proto.op('ENS', {'n': len(order), 'flip': 1 if flip else 0, 'scale': scale, 'tol': tol, 'p': p}, vecs))
         return ops
 
     def compare(self, case, out, results):
         if isinstance(out, ImplError):
             return 'harness/trace failure: %s %s' % (out['error'], out['msg'])
         an = self._analyse(case, out)
-        ms = an['members']
         if out.get('error') and not self._pinned_d3(case, out, an):
             return 'implementation raised %s (%s)' % (out['error'], out['msg'][-100:])
-        if len(ms) != case['N']:
-            return 'traced %d member sifts (%d sift calls) for nensembles=%d' % (len(ms), an['nsift'], case['N'])
-        if any(m['unit'] is None for m in ms):
-            return 'a member input is not x + scale * (an array handed out by numpy.random.randn)'
+        if case['level'] > 0:
+            if not an['traceable']:
+                return SKIP_UNTRACEABLE
+            if not an['count_ok']:
+                return 'traced %d sifted signals for nensembles=%d, mode=%s' % (len(an['sig']), case['N'], case['mode'])
+            if an['members'] is None:
+                return 'flip mode: the sifted signals do not pair up as x + nu / x - nu'
+        if len(results) != 2:
+            return 'no model answer'
         pn, ens = results
         # 1. which draw does each member get: equality pattern under the observed schedule
         if not pn.ok:
             return 'POOLNOISE: %s' % pn.raw[:120]
-        model_pat = _partition([int(v) for v in pn.vecs[0]])
-        real_pat = _partition([_msk.sha(m['unit']['u']) for m in ms])
         if case['level'] > 0:
+            model_pat = _partition([int(v) for v in pn.vecs[0]])
+            real_pat = _partition(an['classes'])
             if model_pat != real_pat:
                 return ('noise sharing pattern: model (%s-side draws) %s, traced %s (workers %s)'
-                        % (MODEL_DRAW, model_pat, real_pat, [m['w'] for m in ms]))
+                        % (MODEL_DRAW, model_pat, real_pat, [m['w'] for m in an['members']]))
         # 2. ensemble output
         if self._pinned_d3(case, out, an):
             return 'skip:d3-ragged-pinned'
@@ -359,68 +495,67 @@ class Ensemble(_Base):
         if not ens.ok:
             return 'ENS: %s' % ens.raw[:160]
         if int(ens.args['k']) != len(out['cols']):
-            return 'columns: model %s impl %d (member widths %s)' % (ens.args['k'], len(out['cols']), an['widths'])
+            return 'columns: model %s impl %d (widths of the sifted signals %s)' % (ens.args['k'], len(out['cols']), an['widths'])
         tol = _msk.TOL * max(1.0, _msk.max_abs(an['x']) + 6 * an['scale'])
         for j, c in enumerate(out['cols']):
             if not _msk.frac_close(ens.vecs[j], c, tol):
                 return 'ensemble column %d differs from the model mean' % j
+        if case['level'] > 0 and not an['attributed']:
+            return SKIP_UNATTRIBUTED
         return None
 
     def holds(self, case, out):
         if isinstance(out, ImplError):
             return [Failure('trace-failed:' + out['error'], out['msg'])]
         an = self._analyse(case, out)
-        ms, x, n = an['members'], an['x'], len(an['x'])
+        x, n, N = an['x'], len(an['x']), case['N']
+        flip = case['mode'] == 'flip'
         fs = []
-        if len(ms) != case['N'] and not out.get('error'):
-            fs.append(Failure('wrong-number-of-member-sifts', '%d members traced for nensembles=%d' % (len(ms), case['N'])))
-        # own noise realisation per member
-        if case['level'] > 0 and ms:
-            digests = [_msk.sha(m['plus'] - x) for m in ms]
-            if len(set(digests)) != len(ms):
-                fs.append(Failure('members-share-noise', '%d distinct noise arrays for %d members on %d worker processes '
-                                  '(nprocesses=%d, mode=%s); sharing pattern %s by worker %s'
-                                  % (len(set(digests)), len(ms), len(set(m['w'] for m in ms)), case['nproc'], case['mode'],
-                                     _partition(digests), [m['w'] for m in ms])))
-        # successive draws of one process are distinct (assumption of the distinctness theorem)
-        seen = {}
-        for u in an['units']:
-            k = (u['w'], _msk.sha(u['u']))
-            if k in seen:
-                fs.append(Failure('generator-repeats-a-draw', 'process %s handed out the same array twice' % u['w']))
-                break
-            seen[k] = 1
-        if case['mode'] == 'flip':
-            for m in ms:
-                if np.max(np.abs((m['plus'] - x) + (m['minus'] - x))) > 1e-12 * max(1.0, _msk.max_abs(x) + an['scale'] * 6):
-                    fs.append(Failure('flip-second-run-not-sign-flipped-noise', 'x+nu and x-nu do not use the same nu'))
-                    break
+        # -- own noise realisation per member (needs the sifted signals; nothing traced = skipped and counted)
+        if case['level'] > 0 and an['traceable'] and not out.get('error'):
+            if not an['count_ok']:
+                fs.append(Failure('wrong-number-of-member-sifts', '%d signals were sifted for nensembles=%d in %s mode (expected %d)'
+                                  % (len(an['sig']), N, case['mode'], an['expected'])))
+            elif an['members'] is None:
+                fs.append(Failure('flip-second-run-not-sign-flipped-noise',
+                                  '%d of the %d sifted signals have no partner x - nu for their x + nu'
+                                  % (len(an['unmatched']), len(an['sig']))))
+            else:
+                cl = an['classes']
+                if len(set(cl)) != len(cl):
+                    ms = an['members']
+                    fs.append(Failure('members-share-noise', '%d distinct noise arrays for %d members on %d worker processes '
+                                      '(nprocesses=%d, mode=%s); sharing pattern %s by worker %s'
+                                      % (len(set(cl)), len(ms), len(set(m['w'] for m in ms)), case['nproc'], case['mode'],
+                                         _partition(cl), [m['w'] for m in ms])))
         if out.get('error'):
             if self._pinned_d3(case, out, an):
                 return fs
             kind = 'raises:' + out['error']
-            if out['error'] == 'ValueError' and case['mode'] == 'flip' and 'broadcast' in out['msg']:
+            if out['error'] == 'ValueError' and flip and 'broadcast' in out['msg']:
                 kind += ':flip-runs-differ-in-column-count'
             fs.append(Failure(kind, out['msg']))
             return fs
-        if self._pinned_d3(case, out, an) or len(ms) != case['N']:
-            return fs
         cols = [np.array(c) for c in out['cols']]
-        K = max(an['widths'])
-        want = _zero_padded_mean(n, [m['dec'] for m in ms], K)
-        tol = _msk.TOL * max(1.0, _msk.max_abs(x) + 6 * an['scale'])
-        if len(cols) != len(want):
-            fs.append(Failure('ensemble-wrong-column-count', '%d columns, members have %s, cap %s' % (len(cols), an['widths'], case['cap'])))
-        else:
-            for j in range(len(cols)):
-                dev = float(np.max(np.abs(cols[j] - want[j])))
-                if dev > tol:
-                    kind = 'ensemble-not-mean-of-members'
-                    if case['mode'] == 'flip':
-                        kind += ':flip'
-                    fs.append(Failure(kind, 'column %d deviates %.3g from the mean over the %d member decompositions recomputed '
-                                      'from the traced noise' % (j, dev, len(ms))))
-                    break
+        # -- result = per-IMF mean over the members, recomputed with the public sift from the sifted signals
+        #    (flip: the mean over members of (a + b) / 2 is the mean over all 2N decompositions, zero-padded)
+        if an['decs'] is not None and not self._pinned_d3(case, out, an):
+            K = max(an['widths'])
+            want = _zero_padded_mean(n, an['decs'], K)
+            tol = _msk.TOL * max(1.0, _msk.max_abs(x) + 6 * an['scale'])
+            if len(cols) != len(want):
+                fs.append(Failure('ensemble-wrong-column-count', '%d columns, the sifted signals have %s, cap %s'
+                                  % (len(cols), an['widths'], case['cap'])))
+            else:
+                for j in range(len(cols)):
+                    dev = float(np.max(np.abs(cols[j] - want[j])))
+                    if dev > tol:
+                        kind = 'ensemble-not-mean-of-members'
+                        if flip:
+                            kind += ':flip'
+                        fs.append(Failure(kind, 'column %d deviates %.3g from the mean over the %d decompositions recomputed '
+                                          'from the sifted signals' % (j, dev, len(an['decs']))))
+                        break
         if case['level'] == 0:
             ref = _classic(x, case['cap'], _opts(case))
             ztol = 1e-12 * max(1.0, _msk.max_abs(x))
@@ -439,11 +574,28 @@ class Ensemble(_Base):
             an = self._analyse(case, out)
             if self._ragged(case, an)[0]:
                 t.append('ragged-member-widths')
-            if an['sub_ragged']:
+            if an['members'] is not None and case['mode'] == 'flip' and an['decs'] is not None and \
+                    any(len(an['decs'][m['plus']]) != len(an['decs'][m['minus']]) for m in an['members']):
                 t.append('flip-runs-differ-in-width')
             if self._pinned_d3(case, out, an):
                 t.append('d3-ragged-pinned')
             t.append('opts=%d' % case.get('opts', 0))
+            if not an['traceable']:
+                t.append('untraceable')
+            elif case['level'] > 0 and an['members'] is not None:
+                t.append('noise-attributed-to-rng-draws' if an['attributed'] else 'noise-not-attributed-to-rng-draws')
+            if an['other']:
+                t.append('sifts-of-other-signals')
+            # successive draws of one process are distinct (assumption of the distinctness theorem; about numpy, not emd)
+            seen = set()
+            for u in an['units']:
+                k = (u['w'], u['fn'], _msk.sha(u['u']))
+                if k in seen and len(set(u['u'].tolist())) > 1:
+                    t.append('ASSUMPTION-BROKEN:generator-repeats-a-draw')
+                    break
+                seen.add(k)
+            if len(set(e['w'] for e in an['sig'])) and any(e['w'] == -1 for e in an['sig']):
+                t.append('sift-in-parent-process')
         return t
 
 
@@ -455,7 +607,8 @@ class Complete(_Base):
         s = {'fam': 'tones', 'n': 64, 'seed': 22, 'scale': 1.0}
         base = {'sig': s, 'N': 4, 'nproc': 4, 'mode': 'single', 'level': 0.2, 'cap': 2, 'seed': 99, 'delay': False}
         return [base, dict(base, nproc=1), dict(base, mode='flip', nproc=3, N=5), dict(base, level=0.0, N=2, nproc=2),
-                dict(base, N=1, nproc=2, level=2.0), dict(base, N=8, nproc=8, cap=None, level=0.05)]
+                dict(base, N=1, nproc=2, level=2.0), dict(base, N=8, nproc=8, cap=None, level=0.05),
+                dict(base, N=6, nproc=1, mode='flip', cap=3)]
 
     def generate(self, rng, tier):
         sizes = [48, 64, 96]
@@ -484,110 +637,119 @@ class Complete(_Base):
             x = _msk.make_signal(case['sig'])
             n, N = len(x), case['N']
             scale = float(x.std() * case['level'])
-            rs = [e for e in out['events'] if e['kind'] == 'random_sample']
-            M = np.array(rs[0]['v']).reshape(rs[0]['shape']) if rs else None
-            sifts = [e for e in out['events'] if e['kind'] == 'sift']
-            per = 2 if case['mode'] == 'flip' else 1
-            # stage structure: N*per member sifts, then N noise sifts, repeated (starmap is a barrier)
-            stages_traced = []
-            i = 0
-            while i + N * per + N <= len(sifts):
-                stages_traced.append({'members': sifts[i:i + N * per], 'noise': sifts[i + N * per:i + N * per + N]})
-                i += N * per + N
-            leftovers = len(sifts) - i
-            stages = (len(out['cols']) - 1) if out.get('cols') else max(0, len(stages_traced) - 1)
-            # rule: run the documented recursion with the public sift
-            spec = None
-            if M is not None and M.shape == (n, N):
-                F = lambda y: np.asarray(emd.sift.sift(y, sift_thresh=1e-8, max_imfs=1))[:, 0]   # noqa
-                tf, tn = [], []
+            flip = case['mode'] == 'flip'
+            per = 2 if flip else 1
+            sig, other = _sifted(out, n)
+            an = {'x': x, 'scale': scale, 'per': per, 'sig': sig, 'other': other, 'traceable': len(sig) > 0,
+                  'stages': None, 'recognised': False, 'why': 'nothing-traced', 'units': _rng_units(out, n),
+                  'noise0': None, 'noise_attributed': False}
+            if not sig or not out.get('cols'):
+                return an
+            cols = [np.array(c) for c in out['cols']]
+            K = len(cols)
+            ret_noise = [np.array(c) for c in (out.get('noise') or [])]
+            resid = [x - (np.sum(cols[:k], axis=0) if k else 0.0) for k in range(K)]
+            S = [e['v'] for e in sig]
+            tol = 1e-12 * max(_mag(x) + _mag(*S), 1e-300)
+            an['tol'] = tol
+            memo = {}
 
-                def member(proto_, nu):
-                    a = F(proto_ + nu)
-                    tf.append((proto_ + nu, a))
-                    if per == 2:
-                        b = F(proto_ - nu)
-                        tf.append((proto_ - nu, b))
-                        return (a + b) / 2
-                    return a
-                noise = M * scale
-                inputs = []
-                st_in = [(x, noise[:, i] * scale) for i in range(N)]
-                inputs.append(st_in)
-                imf = [np.mean([member(p_, nu) for p_, nu in st_in], axis=0)]
+            def F(y):       # first IMF by the public sift, as both fan-outs of the code ask for it
+                k = y.tobytes()
+                if k not in memo:
+                    memo[k] = np.asarray(emd.sift.sift(y, sift_thresh=1e-8, max_imfs=1))[:, 0].copy()
+                return memo[k]
+            first = [F(s) for s in S]
+            an['first'] = first
+            nxt = [s - f for s, f in zip(S, first)]
 
-                def step(noise):
-                    new = noise.copy()
-                    for i in range(N):
-                        r = F(noise[:, i])
-                        tn.append((noise[:, i].copy(), r))
-                        new[:, i] = noise[:, i] - r
-                    return new
-                noise_in = [noise.copy()]
-                noise = step(noise)
-                for k in range(stages):
-                    proto_ = x - np.sum(imf, axis=0)
-                    st_in = [(proto_, noise[:, i].copy()) for i in range(N)]
-                    inputs.append(st_in)
-                    imf.append(np.mean([member(p_, nu) for p_, nu in st_in], axis=0))
-                    noise_in.append(noise.copy())
-                    noise = step(noise)
-                spec = {'imf': imf, 'noise': noise, 'inputs': inputs, 'noise_in': noise_in, 'tf': tf, 'tn': tn}
-            return {'x': x, 'scale': scale, 'M': M, 'stages_traced': stages_traced, 'leftovers': leftovers,
-                    'stages': stages, 'spec': spec, 'per': per}
+            def near(a, pool, skip=None):
+                return any(j != skip and float(np.max(np.abs(a - b))) <= tol for j, b in enumerate(pool))
+            # pure-noise sifts vs member sifts, by content: a noise column P is sifted to take its first mode out, and
+            # what is left (P - firstIMF(P)) is sifted in the next stage or returned. (A signal without extrema is its
+            # own first IMF, so "what is left" of an exhausted member input and of an exhausted noise column are both
+            # exactly zero: zero remainders link nothing.)
+            nz = [_msk.max_abs(v) > 0 for v in nxt]
+            pure = []
+            for i, s in enumerate(S):
+                if _msk.max_abs(s) == 0:
+                    pure.append(True)                       # an exhausted / zero-amplitude noise column
+                elif near(s, resid):
+                    pure.append(False)                      # residual + zero noise: a member whose noise is exhausted
+                elif nz[i] and (near(nxt[i], S, skip=i) or near(nxt[i], ret_noise)):
+                    pure.append(True)                       # its remainder is sifted later / returned
+                else:                                       # it is the remainder of an earlier noise sift
+                    pure.append(any(j != i and nz[j] and float(np.max(np.abs(s - nxt[j]))) <= tol for j in range(len(S))))
+            an['pure'] = pure
+            members = [i for i in range(len(S)) if not pure[i]]      # in time order
+            if len(members) != K * N * per:
+                an['why'] = 'member-sift-count-%s-for-%d-stages' % ('low' if len(members) < K * N * per else 'high', K)
+                return an
+            an['recognised'], an['why'] = True, ''
+            stages = []
+            for k in range(K):
+                idx = members[k * N * per:(k + 1) * N * per]
+                e = [S[i] - resid[k] for i in idx]
+                st = {'idx': idx, 'e': e, 'resid': resid[k], 'col': cols[k]}
+                st['negligible'] = [_msk.max_abs(v) <= 1e-9 * max(_mag(x), 1e-300) for v in e]
+                if flip:
+                    st['pairs'], st['unmatched'] = _pair_up(e, tol)
+                    reps = [a for a, b in st['pairs']] if not st['unmatched'] else None
+                else:
+                    st['pairs'], st['unmatched'] = None, []
+                    reps = list(range(len(idx)))
+                st['reps'] = reps
+                if reps is not None:
+                    st['classes'] = _same_noise_classes([e[r] for r in reps], tol, flip, ignore=[st['negligible'][r] for r in reps])
+                stages.append(st)
+            an['stages'] = stages
+            # stage-0 noise columns as the model sees them: member noise = +/- scale * (a noise column P that is sifted itself)
+            st0 = stages[0]
+            if st0['reps'] is not None:
+                P = [S[i] for i in range(len(S)) if pure[i]]
+                noise0 = []
+                for r in st0['reps']:
+                    hit = None
+                    if scale == 0:
+                        hit = np.zeros(n)
+                    else:
+                        for p_ in P:
+                            if float(np.max(np.abs(st0['e'][r] - scale * p_))) <= tol or \
+                                    (flip and float(np.max(np.abs(st0['e'][r] + scale * p_))) <= tol):
+                                hit = p_
+                                break
+                    noise0.append(hit)
+                if all(h is not None for h in noise0):
+                    an['noise0'] = noise0
+                    if scale > 0:
+                        an['noise_attributed'] = all(
+                            any(float(np.max(np.abs(u['u'] * scale - p_))) <= tol for u in an['units']) for p_ in noise0)
+                    else:
+                        an['noise_attributed'] = True
+            return an
         return self._memo(case, run)
 
     def ops(self, case, out):
         if isinstance(out, ImplError) or out.get('error'):
             return []
         an = self._analyse(case, out)
-        sp = an['spec']
-        if sp is None:
+        if not an['recognised'] or an['noise0'] is None:
             return []
-        x = an['x']
-        vecs = [_msk.vlist(x)] + [_msk.vlist(an['M'][:, i]) for i in range(case['N'])]
-        for a, r in sp['tf']:
-            vecs += [_msk.vlist(a), _msk.vlist(r)]
-        for a, r in sp['tn']:
-            vecs += [_msk.vlist(a), _msk.vlist(r)]
-        return [proto.op('CEEMD', {'n': case['N'], 'flip': 1 if case['mode'] == 'flip' else 0, 'scale': an['scale'],
-                                   'tol': _msk.TOL * max(1.0, _msk.max_abs(x) + an['scale']), 'stages': an['stages'],
-                                   'nf': len(sp['tf']), 'nn': len(sp['tn']), 'rot': case['nproc']}, vecs)]
-
-    def _input_mismatch(self, case, an):
-        """traced member inputs per stage vs. residual +/- column i of the stage's noise matrix (as multisets)"""
-        sp = an['spec']
-        tol = 1e-12 * max(1.0, _msk.max_abs(an['x']) + an['scale'])
-        for k, st in enumerate(an['stages_traced']):
-            if k >= len(sp['inputs']):
-                break
-            want = []
-            for p_, nu in sp['inputs'][k]:
-                want.append(p_ + nu)
-                if an['per'] == 2:
-                    want.append(p_ - nu)
-            got = [np.array(e['v']) for e in st['members']]
-            used = [False] * len(want)
-            for g in got:
-                hit = False
-                for i, w_ in enumerate(want):
-                    if not used[i] and len(w_) == len(g) and np.max(np.abs(w_ - g)) <= tol:
-                        used[i] = hit = True
-                        break
-                if not hit:
-                    return 'stage %d: a member was sifted on an input that is not residual +/- column i of the noise matrix' % k
-            wantn = [sp['noise_in'][k][:, i] for i in range(case['N'])]
-            gotn = [np.array(e['v']) for e in st['noise']]
-            usedn = [False] * len(wantn)
-            for g in gotn:
-                hit = False
-                for i, w_ in enumerate(wantn):
-                    if not usedn[i] and np.max(np.abs(w_ - g)) <= tol:
-                        usedn[i] = hit = True
-                        break
-                if not hit:
-                    return 'stage %d: noise sift on something that is not a column of the noise matrix' % k
-        return None
+        x, scale, N = an['x'], an['scale'], case['N']
+        S = [e['v'] for e in an['sig']]
+        M = [(p_ / scale if scale > 0 else p_) for p_ in an['noise0']]
+        vecs = [_msk.vlist(x)] + [_msk.vlist(m) for m in M]
+        tf = [i for i in range(len(S)) if not an['pure'][i]]
+        tn, seen = [], set()
+        for i in range(len(S)):
+            if an['pure'][i] and S[i].tobytes() not in seen:
+                seen.add(S[i].tobytes())
+                tn.append(i)
+        for i in tf + tn:
+            vecs += [_msk.vlist(S[i]), _msk.vlist(an['first'][i])]
+        return [proto.op('CEEMD', {'n': N, 'flip': 1 if case['mode'] == 'flip' else 0, 'scale': scale,
+                                   'tol': _msk.TOL * max(1.0, _msk.max_abs(x) + scale), 'stages': len(an['stages']) - 1,
+                                   'nf': len(tf), 'nn': len(tn), 'rot': case['nproc']}, vecs)]
 
     def compare(self, case, out, results):
         if isinstance(out, ImplError):
@@ -595,13 +757,16 @@ class Complete(_Base):
         if out.get('error'):
             return 'implementation raised %s (%s)' % (out['error'], out['msg'][-120:])
         an = self._analyse(case, out)
-        if an['spec'] is None:
-            return 'no parent-side random_sample((n, nensembles)) matrix traced'
-        if an['leftovers'] or len(an['stages_traced']) != an['stages'] + 1:
-            return 'traced %d complete stages (+%d calls) for %d columns' % (len(an['stages_traced']), an['leftovers'], len(out['cols']))
-        mm = self._input_mismatch(case, an)
-        if mm:
-            return mm
+        if not an['traceable']:
+            return SKIP_UNTRACEABLE
+        if not an['recognised']:
+            return 'skip:ceemd-stage-structure-not-recognised'
+        if an['stages'][0]['reps'] is None:
+            return 'flip mode: the signals sifted in stage 0 do not pair up as x + nu / x - nu'
+        if an['noise0'] is None:
+            return 'skip:ceemd-member-noise-not-among-the-sifted-noise-columns'
+        if not results:
+            return 'no model answer'
         r = results[0]
         if not r.ok:
             return 'CEEMD: %s' % r.raw[:160]
@@ -612,9 +777,18 @@ class Complete(_Base):
         for j, c in enumerate(out['cols']):
             if not _msk.frac_close(r.vecs[j], c, tol):
                 return 'column %d differs from the model mean over members' % j
+        # returned noise matrix: which member holds which column is not observable from outside -> compared as a multiset
+        model_noise = [[float(v) for v in vec] for vec in r.vecs[K:]]
+        if len(model_noise) != len(out['noise']):
+            return 'returned noise: model %d columns, impl %d' % (len(model_noise), len(out['noise']))
+        free = list(range(len(model_noise)))
         for j, c in enumerate(out['noise']):
-            if not _msk.frac_close(r.vecs[K + j], c, tol):
-                return 'returned noise column %d differs from the model' % j
+            hit = next((i for i in free if max([abs(a - b) for a, b in zip(model_noise[i], c)] + [0.0]) <= tol), None)
+            if hit is None:
+                return 'returned noise column %d is not a column of the model\'s noise matrix' % j
+            free.remove(hit)
+        if case['level'] > 0 and not an['noise_attributed']:
+            return SKIP_UNATTRIBUTED
         return None
 
     def holds(self, case, out):
@@ -624,43 +798,53 @@ class Complete(_Base):
             return [Failure('raises:' + out['error'], out['msg'])]
         an = self._analyse(case, out)
         fs = []
-        if an['spec'] is None:
-            return [Failure('ceemd-no-parent-noise-matrix', 'no random_sample((n, nensembles)) call traced in the parent')]
-        x = an['x']
-        if case['level'] > 0:
-            for k, st in enumerate(an['stages_traced']):
-                # a noise column whose modes are exhausted becomes exactly zero in later stages (that is the algorithm);
-                # distinct inputs are demanded wherever the columns of the stage's noise matrix are distinct
-                if k >= len(an['spec']['noise_in']):
-                    break
-                colsk = [_msk.sha(an['spec']['noise_in'][k][:, i]) for i in range(case['N'])]
-                if len(set(colsk)) != len(colsk):
-                    continue
-                byw = {}
-                for e in st['members']:
-                    byw.setdefault(e['w'], []).append(e)
-                plus = [e for lst in byw.values() for e in lst[::an['per']]]     # a job runs +nu then -nu on one worker
-                d = [_msk.sha(np.array(e['v'])) for e in plus]
-                if len(set(d)) != len(d):
-                    fs.append(Failure('members-share-noise', 'stage %d: %d distinct member inputs for %d members' % (k, len(set(d)), len(d))))
-                    break
-        mm = self._input_mismatch(case, an)
-        if mm:
-            fs.append(Failure('ceemd-member-noise-not-own-column', mm))
+        if not an['recognised']:
+            return fs            # skipped and counted by compare()
+        x, flip = an["x"], case['mode'] == 'flip'
         tol = _msk.TOL * max(1.0, _msk.max_abs(x) + an['scale'])
-        for j, c in enumerate(out['cols']):
-            if j < len(an['spec']['imf']):
-                dev = float(np.max(np.abs(np.array(c) - an['spec']['imf'][j])))
-                if dev > tol:
-                    fs.append(Failure('ceemd-imf-not-mean-of-members' + (':flip' if case['mode'] == 'flip' else ''),
-                                      'column %d deviates %.3g from the mean over members' % (j, dev)))
+        for k, st in enumerate(an['stages']):
+            if flip and st['unmatched']:
+                fs.append(Failure('flip-second-run-not-sign-flipped-noise',
+                                  'stage %d: %d of the %d member signals have no partner residual - nu for their residual + nu'
+                                  % (k, len(st['unmatched']), len(st['idx']))))
+                break
+        if case['level'] > 0:
+            for k, st in enumerate(an['stages']):
+                # a noise column whose modes are exhausted becomes exactly zero in later stages (that is the algorithm);
+                # distinct noise is demanded among the members whose noise is not (numerically) zero
+                if st['reps'] is None:
+                    continue
+                cl = [c for c, r in zip(st['classes'], st['reps']) if not st['negligible'][r]]
+                if len(set(cl)) != len(cl):
+                    fs.append(Failure('members-share-noise', 'stage %d: %d distinct noise arrays for %d members with non-zero noise'
+                                      % (k, len(set(cl)), len(cl))))
                     break
+        for k, st in enumerate(an['stages']):
+            want = np.mean([an['first'][i] for i in st['idx']], axis=0)
+            dev = float(np.max(np.abs(st['col'] - want)))
+            if dev > tol:
+                fs.append(Failure('ceemd-imf-not-mean-of-members' + (':flip' if flip else ''),
+                                  'column %d deviates %.3g from the mean over the first IMFs of the %d signals sifted in that stage'
+                                  % (k, dev, len(st['idx']))))
+                break
         return fs
 
     def tags(self, case, out):
         t = super().tags(case, out)
         if not isinstance(out, ImplError) and out.get('cols'):
             t.append('columns=%d' % len(out['cols']))
+            an = self._analyse(case, out)
+            if not an['traceable']:
+                t.append('untraceable')
+            elif not an['recognised']:
+                t.append('stage-structure-not-recognised:' + an['why'])
+            else:
+                if an['noise0'] is None:
+                    t.append('member-noise-not-among-sifted-noise-columns')
+                elif case['level'] > 0:
+                    t.append('noise-attributed-to-rng-draws' if an['noise_attributed'] else 'noise-not-attributed-to-rng-draws')
+                if any(any(st['negligible']) for st in an['stages']) and case['level'] > 0:
+                    t.append('exhausted-noise-column')
         return t
 
 
